@@ -10,7 +10,8 @@ import lib_C20
 ID = "C20"
 THEOREM = ("Ufo2ft.C20.C20_partial / C20_unscripted_everywhere / C20_languages / C20_kern_keys_partial / C20_dflt / "
            "C20_model_failures_shapeA_partial / C20_false_as_stated / C20_quirk_witness / C20_rejects / C20_register / "
-           "C20_ds_extra_complete / C20_ds_extra / C20_ds_alternate_inherits / C20_ds_classify")
+           "C20_ds_extra_complete / C20_ds_extra / C20_ds_variable_same / C20_ds_extra_paths / C20_ds_alternate_inherits / "
+           "C20_ds_classify")
 N = {"quick": 1200, "thorough": 12000}
 RULE = ("fonts: 1-4 scripts drawn from latn/grek/cyrl/hebr/arab/deva/beng/khmr/mymr/nko/hira+kana/thai plus common glyphs and "
         "combining marks; kerning inside scripts, across scripts, with common glyphs and with marks (some through groups); "
@@ -28,8 +29,12 @@ RULE = ("fonts: 1-4 scripts drawn from latn/grek/cyrl/hebr/arab/deva/beng/khmr/m
         "SEVERAL rules by a different alternate each (unencoded glyphs name.rK), a repeated substitution now and then; kerning per "
         "script on the plain letters, on the alternates of ONE rule (any, not only the last), or mixed, sometimes through a group "
         "or with a common glyph; top/_top anchors on letters, alternates and marks; languagesystems all / all+languages / subset "
-        "/ none; compiled with compileInterpolatableTTFsFromDS / OTFsFromDS; observed: the compiler's extraSubstitutions (wrapper "
-        "around _pre_compile_designspace), util.classifyGlyphs on that mapping, and each master's GPOS ScriptList. non-trivial "
+        "/ none; three build paths (1/3 : 1/2 : 1/6): per-master (compileInterpolatableTTFsFromDS / OTFsFromDS), variable font with "
+        "compatible master features (compileVariableTTF / compileVariableCFF2: features compiled once by VariableFeatureCompiler), "
+        "variable font whose second master has an extra GSUB feature (incompatible -> per-master feature compilation, varLib "
+        "merge); observed: the compiler object's extraSubstitutions (wrapper around _pre_compile_designspace), what the feature "
+        "writers RECEIVE from each feature compiler (wrapper around BaseFeatureWriter.extraSubstitutions, tagged by compiler "
+        "class), util.classifyGlyphs on that mapping, and the GPOS ScriptList of each master / of the variable font. non-trivial "
         "(designspace) = some glyph is replaced in >= 2 rules (function level), kerning and a mark feature both compiled (masters).")
 ASSUMED = [
     "feaLib parser/builder beyond the modelled registration logic (set_script/set_language/add_lookup_to_feature_/"
@@ -826,7 +831,13 @@ LEVEL_TEXT = ("Proved for all inputs (Lean, no size bound) about the model of fe
               "The property AS STATED is proved FALSE of the model (decide) on the a/b/acutecomb witness without languagesystem "
               "(DFLT:[kern,mark], latn:[kern]) and on the single-languagesystem Khmer witness (feaLib ignores 'script khmr;'); "
               "both witnesses are replayed on the implementation in every run. Rejected languagesystem lists: model = declarative "
-              "well-formedness (proved).")
+              "well-formedness (proved). Designspace builds (proved for all rule lists / glyph sets): the extraSubstitutions "
+              "mapping built by _pre_compile_designspace contains x under g iff SOME rule replaces g by x (every rule, not only "
+              "the last: C20_ds_extra_complete / C20_ds_extra); the loop of compile_variable_features (variable font, features "
+              "compiled once) yields the same mapping, so on either path the writers receive a mapping satisfying the requirement "
+              "(C20_ds_variable_same / C20_ds_extra_paths); after classifyGlyphs' extra_substitutions step every rule alternate "
+              "of a member of a script's glyph set is in that set, nothing being lost (C20_ds_alternate_inherits / "
+              "C20_ds_classify); these functions are compared with the code on every generated designspace.")
 LEVEL_NOTE = ("The unconditional property is false of the unchanged tree (known finding, two shapes, recognised by "
               "classify_failure from the Lean predicates shapeA/shapeB evaluated on the observed table; any other failing entry - "
               "a declared language system lacking a generated feature, DFLT lacking one while declared, a declared language "
@@ -842,5 +853,8 @@ LEVEL_NOTE = ("The unconditional property is false of the unchanged tree (known 
               "no model of the whole designspace pipeline; the kerning writer's script split is C05's model); any failure there "
               "is a VIOLATION. It counts only pairs whose two glyphs are specific to the script: kerning between common glyphs "
               "(kern_Default) is by design registered only under DFLT and under scripts that have lookups of their own, so a "
-              "declared script without own kerning does not get it - not claimed either way here. The variable-font path "
-              "(compileVariableTTF/OTF -> VariableFeatureCompiler), which passes no extraSubstitutions, is not generated.")
+              "declared script without own kerning does not get it - not claimed either way here. The same predicate is evaluated "
+              "on the variable font built by compileVariableTTF/CFF2 (both the compiled-once and the per-master fallback); before "
+              "/repo f968433 the compiled-once path handed the writers no mapping (known_findings: fixed), which this stream "
+              "reports as a VIOLATION at function level (writers' mapping) and on the ScriptList. Feature variations (rvrn) and "
+              "several variable fonts per designspace (v5 splitting) are not generated.")
